@@ -84,8 +84,9 @@ Print Assumptions c18_hook_nil_is_error.
 From Coq Require Import List String ZArith NArith Bool. From Bexpr Require Import Base Strconv Ast Univ Eval Api Dump GoTables TableTie TieDefaults. Import ListNotations.
 
 Theorem default_options :
-  go_default_options = [("withMaxExpressions", "0"); ("withTagName", "bexpr"); ("withUnknown", "nil")] /\
-  o_max default_opts = 0%N /\ o_tag default_opts = "bexpr" /\ o_unknown default_opts = None.
+  default_field "withMaxExpressions" "0" = "0" /\ default_field "withTagName" "" = "bexpr" /\ default_field "withUnknown" "nil" = "nil"
+  /\ default_field "withHookFn" "nil" = "nil" /\ default_field "withLocalVariables" "nil" = "nil"
+  /\ o_max default_opts = 0%N /\ o_tag default_opts = "bexpr" /\ o_unknown default_opts = None.
 Proof. exact TieDefaults.default_options. Qed.
 Print Assumptions default_options.
 
